@@ -301,8 +301,9 @@ def expected_rows(s):
 
 
 def run(chk):
-    # "prv": check_flags of prv.c regenerated from the source (C13_prv_flags_from_source); "pv": text and tables of the writer layer
-    units = [u for u in ("prv", "pv") if os.path.exists(os.path.join(common.VERIF, "translate", "units", u + ".py"))]
+    # "prv": check_flags of prv.c regenerated from the source (C13_prv_flags_from_source); "pv": text and tables of the writer layer;
+    # "emuloop": the top-level sequencing (emu.c, model.c, recorder.c, pvt.c, prv.c) regenerated from the source (C13_emu_step_from_source ...)
+    units = [u for u in ("prv", "pv", "emuloop") if os.path.exists(os.path.join(common.VERIF, "translate", "units", u + ".py"))]
     build, oracle, tables = emucheck.setup(chk, extra_units=units)
     chk.trusted_base += [
         "translate/units/pv.py: PCF header text, palette, label limits, system-channel names and labels, the models' type "
@@ -312,6 +313,14 @@ def run(chk):
         "finish_pvt/task_create_pcf_types), compared BYTE FOR BYTE with the .pcf/.row files and the .prv header and "
         "records of ovniemu on every accepted trace (oracle/pv_drv.ml)",
     ]
+    if "emuloop" in units:
+        chk.trusted_base += [
+            "translate/units/emuloop.py + translate/units/_stagec.py: emu_init/emu_connect/emu_step/emu_finish, model_event/"
+            "model_connect/model_create/model_finish, recorder_advance/recorder_finish, pvt_advance/pvt_close, prv_advance/prv_close "
+            "are translated to Gallina on every run; hand-written prelude coq/Emu/EmuLoopPre.v (the primitives carry the meaning of "
+            "PlayerDefs / EmuCoreDefs / BayDefs / PvDefs; connect and finish hooks are parameters; model_probe, model_register, "
+            "argument parsing, cfg_generate and emu_stat are not modelled)",
+        ]
     pv_oracle = None
     try:
         pv_oracle = common.build_oracle("pv", "Extract_pv", "pv_drv.ml", "pv_x")
